@@ -224,8 +224,9 @@ var wsAll = []string{" ", " ", " ", "\t", " ", "　", " ", "\r\n", "\v"}
 var lineSeps = []string{"\n", "\n", "\n", "\r\n", "|", "<br>", "·\n", "--", "||", "\uFFFD", " ", "  "}
 // line separators made of the letter the library uses internally as a stand-in (paragraph-mode Wrap and
 // Justify pad a paragraph with "A"s in place of the paragraph separator's affixes): alone, doubled, and
-// next to letters that the texts contain (defect D18: the stand-ins were read as line separators)
-var internalSeps = []string{"A", "AA", "xA", "Ay"}
+// next to letters that the texts contain (defect D18: the stand-ins were read as line separators); "BA" makes
+// the repaired search for a free stand-in take two steps
+var internalSeps = []string{"A", "AA", "xA", "Ay", "BA"}
 var paraSeps = []string{"\n\n", "\n\n", "\n\n", "\r\n\r\n", "\n--\n", "<P>\n</P>", "||", "¶", "\n\n> ", " <<\n\n", " <fi\u0301n> ", "\U0001F1E9\U0001F1EA\n\U0001F1EA\U0001F1F8"}
 
 // mode: 0 = stable only, 1 = mostly stable with some unstable, 2 = ascii letters only,
